@@ -43,6 +43,13 @@ def module_source(m, dag, clash, n, single=False, naming="flat"):
     if clash == "helper" and n > 1 and m in (1, n):
         helper = f"function bias(int q) -> int\n{{\n  return q * {m + 1};\n}}\n"
         calls += " + bias(a)"
+    # one overloaded name across two modules: the last module defines pick(int), the first one pick(float); a call with an int argument
+    # in the first module reaches the imported overload when that module is imported directly
+    if not clash and n > 1 and m == n:
+        helper += f"function pick(int q) -> int\n{{\n  return q + 700;\n}}\n"
+    if not clash and n > 1 and m == 1:
+        helper += "function pick(float q) -> int\n{\n  return 5;\n}\n"
+        calls += " + pick(a) + pick(0.5) * 3" if n in imps else " + pick(0.5) * 3"
     fn = (f"function h{m}(int q) -> int\n{{\n  return q + {m};\n}}\nfunction h{m}(float q) -> int\n{{\n  return {10 + m};\n}}\n" + helper +
           f"export function {fname(m, clash, n)}(int a) -> int\n{{\n  int t = a * {PRIMES[m]};\n  return t{calls} + {m};\n}}\n")
     if single:
@@ -206,6 +213,45 @@ def history(job):
     return out
 
 
+def umbrella(job):
+    """A module that only imports (no function, no global of its own) still brings in what it imports: as the only module the
+    host adds, in the middle of a chain, and next to another root."""
+    repo, scratch = job
+    from nsl import LinearIR, VM
+    out = []
+    d = os.path.join(scratch, "umbrella")
+    os.makedirs(d, exist_ok=True)
+    srcs = {"ub": "export function fb(int a) -> int\n{\n  return a * 3 + 1;\n}\n",
+            "uc": "export function fc(int a) -> int\n{\n  return a * 5 + 2;\n}\n",
+            "uu": 'import "ub";\nimport "uc";\n',
+            "ua": 'import "uu";\nexport function fa(int a) -> int\n{\n  return a + 7;\n}\n',
+            "ur": "export function fr(int a) -> int\n{\n  return a - 1;\n}\n"}
+    for name in ("ub", "uc", "uu", "ua", "ur"):
+        open(os.path.join(d, name + ".nsl"), "w").write(srcs[name])
+        p = subprocess.run([sys.executable, os.path.join(repo, "nslc.py"), name + ".nsl", "-o", name + ".nslir"], cwd=d, capture_output=True, text=True, env=dict(os.environ, PYTHONPATH=repo))
+        if p.returncode != 0 or not os.path.exists(os.path.join(d, name + ".nslir")):
+            out.append((None, "unjudged-umbrella-module-does-not-compile:" + name, None))
+            return out
+    os.chdir(d)
+    for adds, expect in ((["uu"], {"fb": 3 * 4 + 1, "fc": 5 * 4 + 2}), (["ua"], {"fa": 11, "fb": 13, "fc": 22}), (["ur", "uu"], {"fr": 3, "fb": 13}), (["uu", "ur"], {"fr": 3, "fc": 22})):
+        case = {"host_adds": adds, "sources": srcs}
+        try:
+            with contextlib.redirect_stdout(io.StringIO()):
+                linker = LinearIR.Linker()
+                for m in adds:
+                    linker.AddModule(pickle.load(open(m + ".nslir", "rb")))
+                vm = VM.VirtualMachine(linker.Link())
+                got = {f: vm.Invoke(f, a=4) for f in expect}
+        except BaseException as e:  # noqa
+            got = f"{type(e).__name__}: {e}"[:80]
+        if got != expect:
+            out.append(("umbrella-module", f"host adds {adds}: the import-only module uu imports ub and uc; expected {expect}, got {got}", case))
+        else:
+            out.append((None, "ok-umbrella", None))
+    os.chdir("/")
+    return out
+
+
 def run(ctx, args):
     quick = ctx.tier == "quick"
     n = 3 if quick else 4
@@ -251,6 +297,7 @@ def run(ctx, args):
     with mp.Pool(16) as pool:
         results = pool.map(work, jobs)
         results += pool.map(history, [(str(ctx.repo), scratch)])
+        results += pool.map(umbrella, [(str(ctx.repo), scratch)])
     counts = {}
     for out in results:
         for key, what, case in out:
@@ -270,7 +317,7 @@ def run(ctx, args):
              "outcome, load counts and VM values (against the closure compiled as one module) compared; nslr.py run once per DAG. "
              + ("Also all 64 DAGs on 4 modules with the host adding the root only; " if quick else "")
              + "every clash-free DAG once more with one directory per module and the same file name in each; a history of four links in one process with the default loader "
-             "(the library re-stored and replaced between links). distinct_nontrivial = cases in which the host adds more than one module.",
+             "(the library re-stored and replaced between links); an import-only module as root, in mid-chain and next to another root; one overloaded name split over the first and the last module. distinct_nontrivial = cases in which the host adds more than one module.",
         samples=[{"dag": c["dag"], "clash": c["clash"], "order": c["order"], "prescribed": c["outcome"], "loads": c["loads"]} for g in list(groups.values())[3::max(1, len(groups) // 3)][:3] for c in g[:1]],
         exhaustive=True, traces_validated=counts.get("ok-linked", 0) + counts.get("ok-rejected", 0),
         assumptions=["not judged: the host adds a module that another added module also imports (the linker cannot know that an object it was given is the module of that name)",
